@@ -54,12 +54,16 @@ ASSUMPTIONS = [
     "directory states: the theorems C19_*_any_directory start from an ARBITRARY directory (leftover temporary files, "
     "any/torn stamp, lock file, foreign locks, any clock) under the single requirement dir_ok = every final-name "
     "HED*.xml already present is complete; the harness prepares such directories AND directories with torn "
-    "final-name files -- on those the code as it is fails (open finding C19-F5, C19_preexisting_torn_file_witness); "
+    "final-name files -- before fix commit 8dfe516 the code failed on those (C19-F5, record: C19_preexisting_torn_file_witness); "
     "mixing pre-fix and current processes in one schedule is not modelled",
     "a bundled file is ONE index in the model, used by the cache look-up and by the installed-folder look-up alike; "
     "that both look-ups of the real code use the same key (version AND library name) is tested, not proved: every "
     "bundled version, standard and library, is loaded by number through the default cache directory and through "
     "xml_folder after populations interrupted before its own file was renamed",
+    "merged requests ('lib_a_x,lib_b_y': several bundled versions into one schema) are checked by the oracle only: "
+    "both orders, each requested file complete / missing / torn, also after an interrupted population; the loaded "
+    "schema must equal the bundled merge (libraries, versions, number and names of tags). The model has one version "
+    "per load; how the loader combines the parts is not modelled",
     "clock: schedules contain forward ticks and steps BACK (model event Back), and prepared time stamps lie before, "
     "at and after the caller's clock; one virtual clock per schedule (hosts with skewed clocks are represented by a "
     "stamp in the future / a step back, not by per-process clocks)",
@@ -489,8 +493,24 @@ class _Instr:
                     s = hio.load_schema_version(v, xml_folder=self.dir)
                 else:
                     s = hio.load_schema_version(v)
-                ref = self.orig_load(os.path.join(self.inst, vfile(v)))
+                if "," in v:
+                    # a MERGED request (several bundled versions into one schema): the bundled merge is what the
+                    # same request gives on the installed folder, where every file is complete
+                    ref = hio.load_schema_version(v, xml_folder=self.inst)
+                else:
+                    ref = self.orig_load(os.path.join(self.inst, vfile(v)))
                 out["result"] = ["ok", bool(s == ref)]
+
+                def brief(x):        # content, not only 'it loaded': libraries, versions, number and names of tags
+                    try:
+                        names = sorted(x.tags.keys())
+                        return [x.library, x.get_formatted_version(), len(names),
+                                __import__("hashlib").sha1(",".join(names).encode()).hexdigest()[:10]]
+                    except Exception as ex:  # noqa
+                        return ["?", type(ex).__name__]
+                out["got"], out["want"] = brief(s), brief(ref)
+                if out["got"] != out["want"]:
+                    out["result"] = ["ok", False]
             elif kind == "refresh":
                 r = hc.cache_xml_versions(cache_folder=self.dir)
                 out["result"] = ["ret", r]
@@ -973,6 +993,11 @@ def oracle(case, out, res, nfiles):
             # clause: loading a bundled version succeeds and returns the bundled schema
             if o == "loaded":
                 continue
+            if "," in spec["version"]:
+                res.report("load-succeeds/merged-request", cid,
+                           f"proc {i}: load of the merged request {spec['version']!r}: outcome {o} {r['result'][:4]}; "
+                           f"loaded [library, version, #tags, names] = {r.get('got')}, bundled merge = {r.get('want')}")
+                continue
             listing = r.get("listing") or []
             vname = vfile(spec["version"])
             pre = init.get("files", {}).get(spec.get("vindex"), init.get("files", {}).get(str(spec.get("vindex"))))
@@ -1123,7 +1148,7 @@ def load_spec0(version, files, via="default"):
     return {"kind": "load", "version": version, "vindex": files.index(vfile(version)), "via": via}
 
 
-def build_cases(rng, tier, files, th, wide):
+def build_cases(rng, tier, files, th, wide, inst_dir=None):
     nf = len(files)
     full = 4 * nf + 6           # gates of a complete first load: list enter (exists open w w)* end exit list read
     cases = []
@@ -1174,6 +1199,48 @@ def build_cases(rng, tier, files, th, wide):
     add("refresh, clock stepped back, refresh again", [{"kind": "seq", "calls": [{"kind": "refresh"}] * 2},
                                                         {"kind": "refresh"}],
         [["U", 0], ["T", -5], ["U", 1], ["T", -(th // 2)], ["U", 0]])
+    # -- MERGED requests (several bundled library versions into one schema, both orders) on directories in which
+    #    each requested file is complete / missing / torn; also after an interrupted population.  The loaded schema
+    #    is compared with the bundled merge (libraries, versions, tag count and names), not only 'it loaded'.
+    withstd = {}
+    for n in files:
+        m_ = __import__("re").search(r'withStandard="([^"]+)"', open(os.path.join(inst_dir, n), errors="ignore").read(600))
+        if m_ and "_" in n[3:]:
+            withstd.setdefault(m_.group(1), []).append(n[4:-4])
+    pairs = []
+    for std, libs in sorted(withstd.items()):
+        byname = {}
+        for l_ in libs:
+            byname.setdefault(l_.rsplit("_", 1)[0], []).append(l_)
+        names = sorted(byname)
+        for i_ in range(len(names)):
+            for j_ in range(i_ + 1, len(names)):
+                for a_ in byname[names[i_]]:
+                    for b_ in byname[names[j_]]:
+                        pairs += [(a_, b_), (b_, a_)]
+    states = [["G", "G"], None, [], ["G"], ["H", "G"]]          # complete, missing, torn (empty / half / hole)
+    n_m = 14 if tier == "quick" else 80
+    for k in range(n_m if pairs else 0):
+        a_, b_ = pairs[k % len(pairs)] if k < 2 * len(pairs) else rng.choice(pairs)
+        ia, ib = files.index(vfile(a_)), files.index(vfile(b_))
+        init = {"files": {i: ["G", "G"] for i in range(nf) if rng.random() < rng.choice([0.0, 0.5, 1.0])}}
+        sa, sb = (states[0], rng.choice(states[2:])) if k < 2 * len(pairs) else (rng.choice(states), rng.choice(states))
+        if k % 4 == 1:
+            sa, sb = sb, sa
+        for i_, st_ in ((ia, sa), (ib, sb)):
+            if st_ is None:
+                init["files"].pop(i_, None)
+            else:
+                init["files"][i_] = st_
+        if rng.random() < 0.3:
+            init["stamp"] = ["A", VT0 - rng.choice([5, th + 7])]
+        spec_ = {"kind": "load", "version": a_ + "," + b_, "vindex": ia,
+                 "via": rng.choice(["default", "xml_folder"])}
+        if k % 5 == 4:        # ... and after a population that was interrupted
+            add("merged request after an interrupted population", [_ls(rng.choice(versions), files, "default"), spec_],
+                [["R", 0]] * rng.randint(1, 5 * nf + 2) + [["C", 0]])
+        else:
+            add("merged request on a directory with complete / missing / torn files", [spec_], [], init=init)
     # -- lock queues: >= 3 contenders that all found the folder empty; a waiter is already blocked inside acquire
     #    (lock file open, an attempt failed) when the holder leaves / is killed; later arrivals try afterwards
     pop = 5 * nf + 2 if FIXED else 4 * nf + 2
@@ -1436,6 +1503,8 @@ def judge(cases, outs, res, model_ok, nfiles, th):
                                                                "procs": case["procs"], "schedule": case["schedule"]},
                            f"second refresh 5 s after the first: {r.get('result')} netcalls={r.get('netcalls')}")
         if not out.get("external") and all(s["kind"] not in ("hold", "threads", "populate", "nested")
+                                           and "," not in str(s.get("version", ""))
+                                           and all("," not in str(c_.get("version", "")) for c_ in s.get("calls", []))
                                            for s in case["procs"]):
             usable.append((case, out))
     if model_ok:
@@ -1464,7 +1533,7 @@ def run(tier, seed, res, model_ok=True, proof_ok=True):
     try:
         files = inst_files(snapshot_installed(scratch))
         nfiles = len(files)
-        cases = build_cases(rng, tier, files, th, wide=not proof_ok)
+        cases = build_cases(rng, tier, files, th, wide=not proof_ok, inst_dir=os.path.join(scratch, "installed"))
         outs = execute(cases, scratch)
         checked, disagreements = judge(cases, outs, res, model_ok, nfiles, th)
     finally:
